@@ -433,7 +433,10 @@ class ThreadPool(object):
                 # Queue is now empty
                 pass
 
-            # Wait for the tasks currently executed
+        # Wait for the tasks currently executed, outside the lock as the
+        # worker threads need it to complete their task (nothing runs anymore
+        # once the pool has been stopped)
+        if not self._done_event.is_set():
             self.join()
 
     def join(self, timeout=None):
@@ -443,8 +446,8 @@ class ThreadPool(object):
         :param timeout: Maximum time to wait (in seconds)
         :return: True if the queue has been emptied, else False
         """
-        if self._queue.empty():
-            # Nothing to wait for...
+        if not self._queue.unfinished_tasks:
+            # Nothing to wait for: no task is queued nor being executed
             return True
         elif timeout is None:
             # Use the original join
